@@ -274,10 +274,57 @@ def run(tier):
             ident += 1
             v.distinct(("ni", t))
     stats["other_lines_identical"] = ident
+    # ---------------- (d) the documented forms inside a PROGRAM: an option-sensitive line preceded, in the same call, by a context line
+    # (short / decimal / 16-digit immediates, swapped and rewritten memory operands, VEX, keywords, a rejected-looking comment...) must
+    # assemble exactly as it does alone under the same combination - the mode rules hold per line, not per call
+    SENS = ["mov rax, 0x000000007fffffff", "mov r9, 0x0000000000000001", "mov rcx, 0x7fffffff", "mov rdx, 2147483647", "mov r8, 0x80000000", "lea r15, [rax+rsp]", "lea r15, [rax+rsp+8]",
+            "lea r14, [2*rax]", "lea r14, [2*r13-0x80]", "mov qword [rbx+esp], 5" if False else "add qword [rbx+rsp], 5", "vpaddb ymm1, ymm2, [2*r12+8]"]
+    CTX = ["add rcx, 5", "shl rdx, 3", "mov rcx, 0x10", "mov rax, 0x0000000000000001", "mov rax, 0x1122334455667788", "mov rbx, -1", "lea rsi, [rdi+rsp]", "lea rsi, [2*rdi]", "lea rsi, [4*rdi+8]",
+           "push 0x7f", "vpaddb ymm1, ymm2, ymm3", "add byte [rax], 1", "jmp short 4", "imul rax, rbx, 100", "mov eax, 5", "nop", "; comment", "label:", "test rax, 0x000000007fffffff"]
+    ditems, dmeta = [], []
+    for sline in SENS:
+        for m in enc.COMBOS:
+            ditems.append((m, sline, 0))
+            dmeta.append((sline, None, m))
+            for c1 in CTX:
+                for c2 in ([None] if not full else [None] + CTX[:6]):
+                    ctx = [c1] + ([c2] if c2 else [])
+                    ditems.append((m, "\n".join(ctx + [sline]), 0))
+                    dmeta.append((sline, tuple(ctx), m))
+    ctx_alone = {}
+    for m in enc.COMBOS:
+        rr = common.run_lines(binary, [(m, c1, 0) for c1 in CTX], tag="c11x")
+        for c1, r in zip(CTX, rr):
+            ctx_alone[(m, c1)] = None if ("crash" in r or r["rc"] != 0) else r["bytes"]
+    dres = common.run_lines(binary, ditems, tag="c11d")
+    alone = {}
+    nctx = 0
+    for (sline, ctx, m), r in zip(dmeta, dres):
+        if ctx is None:
+            alone[(sline, m)] = None if ("crash" in r or r["rc"] != 0) else r["bytes"]
+    for (sline, ctx, m), r in zip(dmeta, dres):
+        if ctx is None:
+            continue
+        v.count()
+        case = {"key": "%s after %s [%s]" % (sline, " ; ".join(ctx), m), "text": sline, "fam": "in_program", "combo": m, "context": list(ctx)}
+        if "crash" in r:
+            v.violation(case, r["crash"]["sig"], r["crash"]["stderr"][-800:])
+            continue
+        want_tail = alone[(sline, m)]
+        pre = [ctx_alone[(m, c)] for c in ctx]
+        if want_tail is None or any(p is None for p in pre):
+            continue
+        want = "".join(pre) + want_tail
+        if r["rc"] != 0 or r["bytes"] != want:
+            v.violation(case, "mode-rule-depends-on-previous-line", "got rc=%s %s want %s" % (r["rc"], r.get("bytes"), want))
+        else:
+            nctx += 1
+            v.distinct(("ctx", sline, ctx, m))
+    stats["in_program_cases"] = nctx
     v.cov["rule"] = ("(a) mov r64,imm for all 16 registers x boundary/random 64-bit values x all spellings x all 12 option combinations: decoded destination width must follow the narrowing model (NASM: 0<=v<=0xffffffff; "
                      "STRICT: never; SMART: in range and not a 16-digit hex literal), decoded value == v, NASM mode must decode like nasm's own output, SIB options must not matter; (b) lea with [base+rsp|esp+d] and "
                      "[s*idx+d] for every base/index x displacements x 12 combos: decoded address == written, raw ModRM/SIB literal in STRICT and rewritten in NASM (scales 4/8: no rewriting), unrelated options "
-                     "must not matter; (c) %d other lines from the C01-C05 generators x 12 combos: identical bytes in all combos that agree on the line's documented sensitive dimension(s)" % len(texts))
+                     "must not matter; (c) %d other lines from the C01-C05 generators x 12 combos: identical bytes in all combos that agree on the line's documented sensitive dimension(s); (d) each option-sensitive line preceded in the same call by each of 19 context lines, under all 12 combos: same bytes as alone" % len(texts))
     v.cov["exhaustive"] = False
     v.cov.update(stats)
     return v.finish(None, narrowed_seen > 500 and kept_seen > 500 and lit > 200 and rew > 200 and ident > 5000, "too little observed: %r" % stats)
